@@ -35,6 +35,7 @@ type mresult struct {
 	paths pset
 	err   *abortErr
 	busy  bool
+	body  *stm
 	done  bool
 }
 
@@ -304,275 +305,6 @@ func (c *mctx) classifyParam(fld *ast.Field) {
 
 func (c *mctx) hasTrackedParams() bool {
 	return c.chanName != "" || len(c.ptrParams) > 0 || len(c.others) > 0
-}
-
-// analyze returns the complete paths (each ending in Return) of a method; memoised.
-func (fi *fileInfo) analyze(fn *ast.FuncDecl) (res *mresult) {
-	if r := fi.results[fn]; r != nil {
-		if r.busy {
-			fi.abort(fn.Pos(), "recursive method %s", fn.Name.Name)
-		}
-		return r
-	}
-	r := &mresult{busy: true}
-	fi.results[fn] = r
-	defer func() {
-		r.busy = false
-		r.done = true
-		if x := recover(); x != nil {
-			ae, ok := x.(*abortErr)
-			if !ok || !fi.soft {
-				panic(x)
-			}
-			r.err = ae
-			res = r
-		}
-	}()
-	if fn.Body == nil {
-		fi.abort(fn.Pos(), "method without body")
-	}
-	c := fi.newCtx(fn)
-	ft, term := c.block(fn.Body.List)
-	r.paths = union(term, c.seqAt(fn.Body.Rbrace, ft, single(retOp())))
-	return r
-}
-
-func (c *mctx) seqAt(pos token.Pos, a, b pset) pset {
-	if len(a)*len(b) > maxPaths {
-		c.fi.abort(pos, "path explosion (more than %d paths)", maxPaths)
-	}
-	return seq(a, b)
-}
-
-// block returns the fall-through paths and the paths terminated by a return.
-func (c *mctx) block(stmts []ast.Stmt) (ft, term pset) {
-	ft = unit()
-	for _, s := range stmts {
-		f, t := c.stmt(s)
-		term = union(term, c.seqAt(s.Pos(), ft, t))
-		ft = c.seqAt(s.Pos(), ft, f)
-	}
-	return ft, term
-}
-
-func (c *mctx) stmt(s ast.Stmt) (ft, term pset) {
-	fi := c.fi
-	switch s := s.(type) {
-	case *ast.EmptyStmt:
-		return unit(), nil
-	case *ast.BlockStmt:
-		return c.block(s.List)
-	case *ast.ExprStmt:
-		e := c.newEv()
-		e.expr(s.X)
-		return e.cur, nil
-	case *ast.AssignStmt:
-		e := c.newEv()
-		e.assign(s)
-		return e.cur, nil
-	case *ast.IncDecStmt:
-		e := c.newEv()
-		e.expr(s.X)
-		if w := e.lhs(s.X); w != nil {
-			e.emit(*w)
-		}
-		return e.cur, nil
-	case *ast.DeclStmt:
-		e := c.newEv()
-		e.decl(s)
-		return e.cur, nil
-	case *ast.SendStmt:
-		id, ok := unparen(s.Chan).(*ast.Ident)
-		if !ok || c.chanName == "" || id.Name != c.chanName {
-			fi.abort(s.Pos(), "send on something that is not the channel parameter")
-		}
-		e := c.newEv()
-		e.expr(s.Value)
-		e.emit(doOp(act{kind: "Send"}))
-		return e.cur, nil
-	case *ast.DeferStmt:
-		e := c.newEv()
-		e.deferStmt(s)
-		return e.cur, nil
-	case *ast.ReturnStmt:
-		e := c.newEv()
-		for _, r := range s.Results {
-			e.expr(r)
-		}
-		e.emit(retOp())
-		return nil, e.cur
-	case *ast.IfStmt:
-		return c.ifStmt(s)
-	case *ast.ForStmt:
-		return c.forStmt(s)
-	case *ast.RangeStmt:
-		return c.rangeStmt(s)
-	case *ast.SwitchStmt:
-		return c.switchStmt(s)
-	case *ast.TypeSwitchStmt:
-		return c.typeSwitchStmt(s)
-	case *ast.BranchStmt:
-		fi.abort(s.Pos(), "%s statement", s.Tok)
-	case *ast.GoStmt:
-		fi.abort(s.Pos(), "go statement")
-	case *ast.SelectStmt:
-		fi.abort(s.Pos(), "select statement")
-	case *ast.LabeledStmt:
-		fi.abort(s.Pos(), "labeled statement")
-	}
-	fi.abort(s.Pos(), "statement %T", s)
-	return nil, nil
-}
-
-// simple runs an init/post statement, which must not return.
-func (c *mctx) simple(s ast.Stmt) pset {
-	if s == nil {
-		return unit()
-	}
-	f, t := c.stmt(s)
-	if len(t) != 0 {
-		c.fi.abort(s.Pos(), "returning init/post statement")
-	}
-	return f
-}
-
-// chanNilCond recognises `ch == nil` / `ch != nil` on the channel parameter.
-func (c *mctx) chanNilCond(cond ast.Expr) (matched bool, nilWhenTrue bool) {
-	b, ok := unparen(cond).(*ast.BinaryExpr)
-	if !ok || c.chanName == "" || (b.Op != token.EQL && b.Op != token.NEQ) {
-		return false, false
-	}
-	x, okx := unparen(b.X).(*ast.Ident)
-	y, oky := unparen(b.Y).(*ast.Ident)
-	if !okx || !oky {
-		return false, false
-	}
-	if (x.Name == c.chanName && y.Name == "nil") || (y.Name == c.chanName && x.Name == "nil") {
-		return true, b.Op == token.EQL
-	}
-	return false, false
-}
-
-func (c *mctx) ifStmt(s *ast.IfStmt) (ft, term pset) {
-	pre := c.simple(s.Init)
-	var thenPre, elsePre pset
-	if ok, nilWhenTrue := c.chanNilCond(s.Cond); ok {
-		thenPre = single(doOp(act{kind: "ChanNil", b: nilWhenTrue}))
-		elsePre = single(doOp(act{kind: "ChanNil", b: !nilWhenTrue}))
-	} else {
-		e := c.newEv()
-		e.expr(s.Cond)
-		thenPre, elsePre = e.cur, e.cur
-	}
-	tf, tt := c.block(s.Body.List)
-	ef, et := unit(), pset(nil)
-	if s.Else != nil {
-		ef, et = c.stmt(s.Else)
-	}
-	p := s.Pos()
-	ft = c.seqAt(p, pre, union(c.seqAt(p, thenPre, tf), c.seqAt(p, elsePre, ef)))
-	term = c.seqAt(p, pre, union(c.seqAt(p, thenPre, tt), c.seqAt(p, elsePre, et)))
-	return ft, term
-}
-
-func (c *mctx) forStmt(s *ast.ForStmt) (ft, term pset) {
-	pre := c.simple(s.Init)
-	if s.Cond != nil {
-		e := c.newEv()
-		e.expr(s.Cond)
-		pre = c.seqAt(s.Pos(), pre, e.cur)
-	}
-	bf, bt := c.block(s.Body.List)
-	post := c.simple(s.Post)
-	p := s.Pos()
-	ft = c.seqAt(p, pre, union(unit(), c.seqAt(p, bf, post)))
-	term = c.seqAt(p, pre, bt)
-	return ft, term
-}
-
-func (c *mctx) rangeStmt(s *ast.RangeStmt) (ft, term pset) {
-	for _, kv := range []ast.Expr{s.Key, s.Value} {
-		if kv == nil {
-			continue
-		}
-		id, ok := kv.(*ast.Ident)
-		if !ok {
-			c.fi.abort(kv.Pos(), "range variable that is not an identifier")
-		}
-		c.checkDecl(id)
-	}
-	e := c.newEv()
-	e.expr(s.X)
-	bf, bt := c.block(s.Body.List)
-	p := s.Pos()
-	ft = c.seqAt(p, e.cur, union(unit(), bf))
-	term = c.seqAt(p, e.cur, bt)
-	return ft, term
-}
-
-func (c *mctx) clauses(pos token.Pos, pre pset, body *ast.BlockStmt, exprs bool) (ft, term pset) {
-	cum := pre
-	var def *ast.CaseClause
-	for _, st := range body.List {
-		cc := st.(*ast.CaseClause)
-		if cc.List == nil {
-			def = cc
-			continue
-		}
-		if exprs {
-			e := c.newEv()
-			e.cur = cum
-			for _, x := range cc.List {
-				e.expr(x)
-			}
-			cum = e.cur
-		}
-		bf, bt := c.block(cc.Body)
-		ft = union(ft, c.seqAt(pos, cum, bf))
-		term = union(term, c.seqAt(pos, cum, bt))
-	}
-	if def != nil {
-		bf, bt := c.block(def.Body)
-		ft = union(ft, c.seqAt(pos, cum, bf))
-		term = union(term, c.seqAt(pos, cum, bt))
-	} else {
-		ft = union(ft, cum)
-	}
-	return ft, term
-}
-
-func (c *mctx) switchStmt(s *ast.SwitchStmt) (ft, term pset) {
-	pre := c.simple(s.Init)
-	if s.Tag != nil {
-		e := c.newEv()
-		e.expr(s.Tag)
-		pre = c.seqAt(s.Pos(), pre, e.cur)
-	}
-	return c.clauses(s.Pos(), pre, s.Body, true)
-}
-
-func (c *mctx) typeSwitchStmt(s *ast.TypeSwitchStmt) (ft, term pset) {
-	pre := c.simple(s.Init)
-	var x ast.Expr
-	switch a := s.Assign.(type) {
-	case *ast.ExprStmt:
-		x = a.X
-	case *ast.AssignStmt:
-		if len(a.Lhs) == 1 && len(a.Rhs) == 1 {
-			if id, ok := a.Lhs[0].(*ast.Ident); ok {
-				c.checkDecl(id)
-				x = a.Rhs[0]
-			}
-		}
-	}
-	ta, ok := x.(*ast.TypeAssertExpr)
-	if !ok {
-		c.fi.abort(s.Pos(), "type switch guard")
-	}
-	e := c.newEv()
-	e.expr(ta.X)
-	pre = c.seqAt(s.Pos(), pre, e.cur)
-	return c.clauses(s.Pos(), pre, s.Body, false)
 }
 
 func coqIdent(s string) string {
